@@ -361,6 +361,17 @@ def _append_slot(f, bid, idx, dimvars):
     return False
 
 
+def _slot_expr(t, dimvars):
+    """t denotes  X->arr[count]: a subscript whose index is the current count of its dimension"""
+    from .idx import dim_class
+    for n in walk(t):
+        if n[0] == "i":
+            ix = strip(n[2])
+            if (is_var(ix, kind="l") and ix[2] in dimvars) or dim_class(ix) is not None:
+                return True
+    return False
+
+
 def run(prog, E=None, prefix="mpq_", rule="R-ATOMIC"):
     E = E or Effects(prog)
     res = RuleResult(rule, "no write to LP data, basis or cached solution precedes an argument-validation failure "
@@ -399,6 +410,8 @@ def run(prog, E=None, prefix="mpq_", rule="R-ATOMIC"):
             (g, name, loc, args, bid, idx, c) = ci
             if name and strip_prefix(name) in LAZY_CALLS:
                 continue
+            if name in ("ILLutil_freerus", "free", "EGfree") and c[3] and _slot_expr(c[3][0], dimvars):
+                continue          # releasing the slot just past the current count (a parked block of a rejected append): unobservable
             for (j, fp) in E.call_writes(f, ci):
                 d = observable_write(fp)
                 if d:
